@@ -33,6 +33,11 @@ var solvers = []solverDef{
 	{"cvc5", func(f string, s int) []string {
 		return []string{"cvc5", "--incremental", fmt.Sprintf("--tlimit=%d", s*1000), f}
 	}},
+	// z3 5.x with pure E-matching (no model-based quantifier instantiation, no automatic configuration): decides many
+	// quantifier-heavy goals in seconds on which the default configuration diverges
+	{"z3-new-ematch", func(f string, s int) []string {
+		return []string{"z3-new", fmt.Sprintf("-T:%d", s), "smt.auto_config=false", "smt.mbqi=false", f}
+	}},
 }
 
 var scratchDir string
@@ -148,8 +153,8 @@ func solve(script string, secs int, thorough bool) *SolveResult {
 	if thorough && res.Status == "unsat" {
 		// agreement of a second solver where one answers
 		for _, sd := range solvers {
-			if sd.name == res.Solver {
-				continue
+			if sd.name == res.Solver || strings.HasPrefix(sd.name, "z3-new") && strings.HasPrefix(res.Solver, "z3-new") {
+				continue // the same solver (in another configuration) is not a second opinion
 			}
 			s, _ := runSolver(context.Background(), sd, file, 10)
 			if s == "unsat" {
